@@ -244,6 +244,15 @@ class C19(PropCheck):
             body = rnd_bytes(rng, max(0, length))
             if length <= 27:
                 add("adversarial-length-byte", rng.choice(BLE_FREQ), bytes([0x42, length]) + body)
+        # a length byte with its two top bits set (reserved in the BLE header; the property calls such a byte
+        # inconsistent with the 32 received bytes) on a packet whose CRC is valid at the position the LOW six bits name
+        # (seeded change C19-s22 masked the byte in available() but not in QueueElement)
+        for hi in (0x40, 0x80, 0xC0):
+            for length in range(6, 28):
+                add("adversarial-length-high-bits", rng.choice(BLE_FREQ),
+                    bytes([0x42, length | hi]) + rnd_bytes(rng, 6) + flags
+                    + (ad(0x16, b"\x0f\x18" + bytes([80])) + rnd_bytes(rng, 32))[: length - 9])
+        res.exhaustive_blocks.append("length byte = L | {0x40, 0x80, 0xC0} for L = 6..27, CRC valid at offset L + 2")
         for hdr in (0x00, 0x02, 0x40, 0x42, 0x46, 0xC2, 0xFF):
             add("adversarial-header", rng.choice(BLE_FREQ), pdu(rnd_bytes(rng, 6), flags, hdr=hdr))
         payloads = self._encode(jobs)
